@@ -33,7 +33,7 @@ CHECKS = {
     "C10": dict(
         engine="events", category="exploration", design_ref="§6.3",
         technique="deterministic simulation of the Parser seam: seeded event histories (incl. surplus end events, deep spines, same-prefix redeclaration) against a stack-machine reference model, plus a goroutine-stack ceiling fault (debug.SetMaxStack in child processes) on 10^5..3x10^6-event flat histories",
-        text="A scripted user-supplied Parser feeds contract-conforming histories into store.CreateInMemory; the tree read back through the public Cursor API must equal a 40-line stack-machine model (shape, node identity, Pos unique/increasing in document order, Parent consistency, owned namespace nodes per in-scope prefix). A second, unrelated build must leave the first tree intact, and a complete second build started from inside Pull (a parser that itself uses the store) must not disturb either tree. Names repeat (one local name in several namespaces, same names on siblings / parent and child). The stack bound is decided under an injected stack ceiling that scales with nesting depth only (a build that is merely slow is noted, not judged).",
+        text="A scripted user-supplied Parser feeds contract-conforming histories into store.CreateInMemory; the tree read back through the public Cursor API must equal a 40-line stack-machine model (shape, node identity, Pos unique/increasing in document order, Parent consistency, owned namespace nodes per in-scope prefix). A second, unrelated build must leave the first tree intact, and a complete second build started from inside Pull (a parser that itself uses the store) must not disturb either tree. Names repeat (one local name in several namespaces, same names on siblings / parent and child), elements carry up to 17 declarations, and in a third of the runs the tree is first observed bottom-up (deepest elements asked for their namespace nodes first). The stack bound is decided under an injected stack ceiling that scales with nesting depth only (a build that is merely slow is noted, not judged).",
         note="Seeded sampling of histories (<= 2000 events, depth <= 200) plus seven long flat shapes; the root's own Parent() and the order among namespace nodes are not constrained."),
     "C16": dict(
         engine="stream-json", category="fault_enumeration", design_ref="§6.2",
@@ -53,7 +53,7 @@ CHECKS = {
     "C14": dict(
         engine="sched-lib + sched-cli", category="exploration", design_ref="§6.6, §4",
         technique="deterministic simulation with seeded schedulers over yield points inserted at build time (go build -overlay, nothing committed in /repo): scheduler L = turn token without happens-before edges so that the Go race detector stays sound under a chosen interleaving (plain + -race builds, same seeds); scheduler P = park/release with blocked-state detection from goroutine wait reasons, driving the real CLI main() as task 0",
-        text="Library: 2-4 tasks run Exec/Unmarshal/GetCursorString/BuildExpr on one shared tree, one pool of compiled expressions and one set of bindings (incl. shared node-set variables with spare capacity); every operation must return its isolated-world result, the shared world must be unchanged after the join, and the -race build of the same seeds must report nothing in /repo code; tasks also parse documents concurrently (what every CLI worker does first). CLI: `-c N` under drawn schedules (uniform, priority change points, run-to-block, starvation; yields in xsel/xsel.go and, one in four, inside parser/store/exec) must terminate by main returning and print exactly the per-file blocks of `-c 1`, each once and contiguous.",
+        text="Library: 2-4 tasks run Exec/Unmarshal/GetCursorString/BuildExpr on one shared tree, one pool of compiled expressions and one set of bindings (incl. shared node-set variables with spare capacity); every operation must return its isolated-world result, the shared world must be unchanged after the join, and the -race build of the same seeds must report nothing in /repo code; tasks also parse documents concurrently (what every CLI worker does first); now and then a crowd of 16-32 tasks each inside one deeply nested evaluation. CLI: `-c N` under drawn schedules (uniform, priority change points, run-to-block, starvation; yields in xsel/xsel.go and, one in four, inside parser/store/exec) must terminate by main returning and print exactly the per-file blocks of `-c 1`, each once and contiguous.",
         note="Yield granularity is the Go statement; the generated lexer/GLL parser and map-ranging build-time functions are not yield-instrumented (BuildExpr is atomic in the plain build; the race build still sees their memory accesses). GOMAXPROCS=1 inside simulations. A mutant that adds blocking primitives to the library makes scheduler L inconclusive (exit 2)."),
     "C15": dict(
         engine="hostile", category="exploration", design_ref="§6.5",
